@@ -7,6 +7,10 @@ ids = [p["id"] for p in props]
 
 # id -> (technique, level text, level note, design ref)
 CLAIMED = {
+ "C10": ("proptest-generated builder inputs; round-trip oracle through the library plus an independent strict reader as structural validator",
+         "Generated-input search over page lists (0-6 pages, C08 operation sequences, boxes, rotation, font and graphics-state resources, extra entries) and information dictionaries built with PdfBuilder; the bytes are reloaded with the library (pages, boxes, rotation, extras, resources, operations, info compared with the input) and parsed by an independent reader that checks header, startxref, every xref entry against the object header, /Size, stream lengths and that no reference dangles.",
+         "the independent reader is harness/src/engine/reader.rs (validated against the whole corpus and the harness writer)",
+         "DESIGN.md §4 C10"),
  "C09": ("stateful model-based testing: proptest-generated operation histories interpreted against the library and an in-memory model; invariants after every step",
          "Generated-input search over histories of create / update (base direct, base compressed, created, repeated) / promise / fulfil / read / save / failing save then repair / copy of a file-backed stream, on corpus bases (classic, xref-stream with object streams, junk before the header) and generated bases, cached and uncached. After each write reads through the open document must show it; after each save the old revision must be a byte prefix, and a fresh load must resolve every written reference to its last value and every untouched object to its old value.",
          "objects that loading itself reads are not overwritten (that would invalidate the file); saved bytes come from File::save_to",
